@@ -35,12 +35,25 @@ def main():
     if not os.path.exists(patch) or not gofiles:
         print("missing patch or demo")
         return 2
-    src0 = open(gofiles[0]).read()
-    pkg = re.search(r"^package (\w+)", src0, re.M).group(1)
-    pkgdir = a.pkgdir or PKGDIRS.get(pkg.replace("_test", ""))
-    if not pkgdir:
-        print("cannot infer the demo's directory (package %s); use --pkgdir" % pkg)
-        return 2
+    # where each demo file goes: its sub-directory under demo/ if it has one, else the directory of its package
+    target = {}
+    for f in demos:
+        rel = os.path.relpath(f, os.path.join(a.src, "demo"))
+        if os.sep in rel:
+            target[f] = os.path.dirname(rel)
+        elif a.pkgdir:
+            target[f] = a.pkgdir
+        elif f.endswith(".go"):
+            pkg = re.search(r"^package (\w+)", open(f).read(), re.M).group(1)
+            d = PKGDIRS.get(pkg.replace("_test", ""))
+            if not d:
+                print("cannot infer the directory of %s (package %s); use --pkgdir" % (f, pkg))
+                return 2
+            target[f] = d
+    for f in demos:
+        target.setdefault(f, sorted(set(target.values()))[0])
+    pkgdirs = sorted(set(target.values()))
+    pkgdir = pkgdirs[0]
     tests = sorted(set(re.findall(r"^func (Test\w+)\(", "\n".join(open(f).read() for f in gofiles if f.endswith("_test.go")), re.M)))
     base = tempfile.mkdtemp(prefix="seedconfirm.", dir="/tmp")
     wt = os.path.join(base, "wt")
@@ -75,12 +88,11 @@ def main():
             else:
                 ran.append(dict(cmd="go test -vet=off -count=1 -timeout 25m ./... (with the change)", rc=0, wall_s=round(time.time() - t0)))
         for f in demos:
-            rel = os.path.relpath(f, os.path.join(a.src, "demo"))
-            dst = os.path.join(wt, pkgdir, os.path.basename(rel)) if os.sep not in rel else os.path.join(wt, rel)
+            dst = os.path.join(wt, target[f], os.path.basename(f))
             os.makedirs(os.path.dirname(dst), exist_ok=True)
             shutil.copy(f, dst)
         if tests:
-            democmd = ["go", "test", "-vet=off", "-count=1", "-timeout", "10m", "-run", "^(%s)$" % "|".join(tests), "./" + pkgdir]
+            democmd = ["go", "test", "-vet=off", "-count=1", "-timeout", "10m", "-run", "^(%s)$" % "|".join(tests)] + ["./" + d for d in pkgdirs]
         else:
             democmd = ["go", "run", "./" + pkgdir]
         rc_with, out_with = sh(democmd, wt)
@@ -101,12 +113,13 @@ def main():
         os.makedirs(os.path.join(dst, "demo"))
         shutil.copy(patch, os.path.join(dst, "patch.diff"))
         for f in demos:
-            shutil.copy(f, os.path.join(dst, "demo", os.path.basename(f)))
+            os.makedirs(os.path.join(dst, "demo", target[f]), exist_ok=True)
+            shutil.copy(f, os.path.join(dst, "demo", target[f], os.path.basename(f)))
         if os.path.exists(os.path.join(a.src, "notes.md")):
             shutil.copy(os.path.join(a.src, "notes.md"), os.path.join(dst, "notes.md"))
         fails = [l for l in out_with.splitlines() if l.startswith("--- FAIL") or "panic:" in l][:6]
         meta = dict(id=a.name, breaks_property=a.property, base_commit=head, files_touched=touched,
-                    demo_dir=pkgdir, demo_tests=tests, needs_to_manifest=a.needs, confirmed=ran,
+                    demo_dirs=pkgdirs, demo_tests=tests, needs_to_manifest=a.needs, confirmed=ran,
                     demo_failure_with_change=fails, origin="independent sub-agent given only the property text and a scratch worktree")
         with open(os.path.join(dst, "meta.json"), "w") as f:
             json.dump(meta, f, indent=1)
